@@ -1,5 +1,6 @@
 import JjModel.Lemmas.MergeMapping
 import JjModel.Lemmas.MergeFlatten
+import JjModel.Lemmas.MergeUpdate
 /-!
   C01 — Conflict simplification and flattening preserve meaning.
 
@@ -65,6 +66,50 @@ theorem simplify_idem (vs : List α) (h : vs.length % 2 = 1) :
   unfold simplify
   rw [simplifiedMapping_of_sep w hsep, applyMapping_range]
 
+/-! ### update_from_simplified -/
+
+theorem updateFromSimplified_eq (vs s : List α) (hs : s.length = (simplifiedMapping vs).length) :
+    updateFromSimplified vs s = some (writeBack (simplifiedMapping vs) s vs) := by
+  simp [updateFromSimplified, writeBack, hs]
+
+/-- the source's `assert_eq!(mapping.len(), simplified.values.len())` fires exactly when the
+edited merge does not have the simplified arity -/
+theorem update_from_simplified_none (vs s : List α) :
+    updateFromSimplified vs s = none ↔ s.length ≠ (simplifiedMapping vs).length := by
+  unfold updateFromSimplified
+  simp only
+  split <;> simp_all <;> omega
+
+/-- **An edit made to the simplified form and written back lands only on the surviving
+positions of the original**: the result has the original arity, position `mapping[k]` holds the
+edited value `s[k]`, and every position not named by the mapping is untouched. -/
+theorem update_from_simplified_spec (vs s : List α) (h : vs.length % 2 = 1)
+    (hs : s.length = (simplifiedMapping vs).length) :
+    ∃ u, updateFromSimplified vs s = some u ∧ u.length = vs.length ∧
+      (∀ (k i : Nat), (simplifiedMapping vs)[k]? = some i → u[i]? = s[k]?) ∧
+      (∀ j : Nat, j ∉ simplifiedMapping vs → u[j]? = vs[j]?) := by
+  obtain ⟨hnd, hr, _, _, _, _⟩ := mapping_spec vs h
+  refine ⟨_, updateFromSimplified_eq vs s hs, length_writeBack _ _ _, ?_, ?_⟩
+  · intro k i hk
+    exact writeBack_mem _ _ _ hnd hs.symm k i hk (hr i (List.mem_of_getElem? hk))
+  · intro j hj
+    exact writeBack_not_mem _ _ _ j hj
+
+/-- Corollary: the written-back merge denotes exactly what the edited simplified merge denotes —
+the dropped side/base pairs of the original still cancel. -/
+theorem update_from_simplified_count (vs s : List α) (h : vs.length % 2 = 1)
+    (hs : s.length = (simplifiedMapping vs).length) (v : α) :
+    ∃ u, updateFromSimplified vs s = some u ∧ count u v = count s v := by
+  obtain ⟨d⟩ := default_of_odd vs h
+  obtain ⟨hnd, hr, _, hp, _, _⟩ := mapping_spec vs h
+  refine ⟨_, updateFromSimplified_eq vs s hs, ?_⟩
+  have hsgn : ∀ (k i : Nat), (simplifiedMapping vs)[k]? = some i → sgn 1 i = sgn 1 k := by
+    intro k i hk; simp only [sgn, hp k i hk]
+  rw [count_eq_scount, scount_writeBack d v _ s vs 1 hnd hs.symm hr hsgn,
+    ← (simplifiedMapping_facts vs d h).2.1, (simplifiedMapping_facts vs d h).2.2.1 1 v,
+    count_eq_scount]
+  omega
+
 /-! ### flatten -/
 
 /-- **Flattening preserves meaning**: the signed count of the flattened merge is the alternating
@@ -97,6 +142,8 @@ example : simplifiedMapping [0, 1, 2, 0, 3] = [4, 1, 2] := by decide
 example : count [0, 1, 2, 0, 3] 0 = 0 ∧ count (simplify [0, 1, 2, 0, 3]) 0 = 0 := by decide
 example : simplify [1, 1, 2, 2, 3, 3, 1, 2, 3] = [1, 2, 3] := by decide
 example : 0 ∈ adds [0, 1, 2, 0, 3] ∧ 0 ∈ removes [0, 1, 2, 0, 3] := by decide
+example : updateFromSimplified [0, 1, 2, 0, 3] [7, 8, 9] = some [0, 8, 9, 0, 7] := by decide
+example : updateFromSimplified [0, 1, 2, 0, 3] [7, 8] = none := by decide
 example : flatten [[4, 3, 5], [2, 1, 0], [7, 6, 8]] = [4, 3, 5, 0, 1, 2, 7, 6, 8] := by decide
 example : altSum [[0, 1, 2], [0, 3, 1], [1]] 1 1 = -1 ∧
     count (flatten [[0, 1, 2], [0, 3, 1], [1]]) 1 = -1 := by decide
